@@ -37,6 +37,7 @@ def r6(run, tree):
     run.rule("C03.R6", "NaN means 'no cell' end to end; slot bookkeeping: every rendered layer is made of its own kernel slots",
              "D7 fold of map() over token layers with symbolic numpy values (first axis of stacked arrays tracked element-wise)", "", floor=6)
     mf.check_map(run, tree, aspects=("slots", "rendered"))
+    mf.check_map_history(run, tree)
 
 
 def r7(run, tree):
